@@ -2,7 +2,10 @@
 package main
 
 import (
+	_ "github.com/google/pprof/verif/checks/c01"
+	_ "github.com/google/pprof/verif/checks/c02"
 	_ "github.com/google/pprof/verif/checks/c03"
+	_ "github.com/google/pprof/verif/checks/c14"
 	"github.com/google/pprof/verif/internal/harness"
 )
 
